@@ -19,13 +19,14 @@ import numpy as np
 from harness import llh_fixtures as fx
 
 N_TOTAL = 40
-N_OF = {0: 40, 1: 40, 2: 55, 3: 12}     # total number of events of the data set (changes between trials)
+N_OF = {0: 40, 1: 40, 2: 55, 3: 12, 4: 7}     # total number of events of the data set (changes between trials)
 
 DATA = {
     0: np.array([0.05, 0.31, 0.52, 0.66, 0.81, 0.97]),            # A
     1: np.array([0.12, 0.28, 0.44, 0.73, 0.79, 0.90]),            # B  (same size as A)
     2: np.array([0.02, 0.15, 0.33, 0.35, 0.58, 0.61, 0.84, 0.88, 0.95]),   # C  (different size)
     3: np.array([0.37]),                                          # D  (a one-event trial)
+    4: np.array([], dtype=np.float64),                            # E  (no event at all survives: a zero-event trial)
 }
 EDGES = np.linspace(0.0, 1.0, 6)
 SOFF_EDGES = np.linspace(0.0, 1.0, 3)
@@ -257,7 +258,8 @@ def build(spec, d, s, cascade=True):
                                       param_grid_set=grid, gridparams_pdfs=pdfs, interpol_method_cls=icls, cfg=cfg)
     G.sigset = sigset
     bkg = BackgroundMultiDimGridPDF(pmm=pmm, axis_binnings=[BinningDefinition('x' if f == 'none' else 'xs', EDGES)],
-                                    pdf_grid_data=bkg_grid(), cache_pd_values=spec['cache'], norm_factor_func=nff, cfg=cfg)
+                                    pdf_grid_data=bkg_grid(), cache_pd_values=spec.get('cache_bkg', spec['cache']),
+                                    norm_factor_func=nff, cfg=cfg)
     bkg._pdf = CRGI((EDGES,), bkg_grid(), method='linear', bounds_error=False, fill_value=0)
     G.bkg = bkg
     inner = SigOverBkgPDFRatio(sig_pdf=sigset, bkg_pdf=bkg, same_axes=False, cfg=cfg)
@@ -313,8 +315,8 @@ def build(spec, d, s, cascade=True):
     return G
 
 
-E2 = {0: 5, 1: 5, 2: 7, 3: 2}         # selected events of the second dataset per data set id
-N2 = {0: 30, 1: 30, 2: 44, 3: 9}
+E2 = {0: 5, 1: 5, 2: 7, 3: 2, 4: 0}         # selected events of the second dataset per data set id
+N2 = {0: 30, 1: 30, 2: 44, 3: 9, 4: 3}
 STUB2_TABLE = 0.4 + 0.45 * np.arange(3 * 7, dtype=np.float64).reshape(3, 7) % 2.1
 
 
@@ -611,7 +613,7 @@ def _i3_events(seed, n):
     return dict(log_energy=rng.uniform(1.2, 6.8, n), sin_dec=sin_dec, dec=np.arcsin(sin_dec))
 
 
-I3_DATA = {0: _i3_events(100, 6), 1: _i3_events(101, 6), 2: _i3_events(102, 9), 3: _i3_events(103, 1)}
+I3_DATA = {0: _i3_events(100, 6), 1: _i3_events(101, 6), 2: _i3_events(102, 9), 3: _i3_events(103, 1), 4: _i3_events(104, 0)}
 
 
 _I3_TEMPLATES = {}
